@@ -174,11 +174,34 @@ func validateResponseHeader(headerName string, headerRef *openapi3.HeaderRef, in
 
 	if headerRef.Value.Schema == nil {
 		// The header is defined by "content": there is no style to decode by and no schema
-		// at this level, so only its presence can be checked.
-		if _, found = input.Header[http.CanonicalHeaderKey(headerName)]; !found && headerRef.Value.Required {
+		// at this level, so in general only its presence can be checked
+		var lines []string
+		if lines, found = input.Header[http.CanonicalHeaderKey(headerName)]; !found && headerRef.Value.Required {
 			return &ResponseError{
 				Input:  input,
 				Reason: fmt.Sprintf("response header %q missing", headerName),
+			}
+		}
+		// ... unless its one media type is application/json, which is read like a parameter defined by content
+		if mt := headerRef.Value.Content["application/json"]; found && len(headerRef.Value.Content) == 1 && mt != nil && mt.Schema != nil && mt.Schema.Value != nil {
+			definition := headerRef.Value.Parameter
+			definition.Name, definition.In = headerName, openapi3.ParameterInHeader
+			value, schema, err := defaultContentParameterDecoder(&definition, []string{headerFieldValue(lines)})
+			if err != nil {
+				return &ResponseError{
+					Input:  input,
+					Reason: fmt.Sprintf("unable to decode header %q value", headerName),
+					Err:    err,
+				}
+			}
+			if schema != nil {
+				if err = schema.VisitJSON(value, append(opts, openapi3.VisitAsResponse())...); err != nil {
+					return &ResponseError{
+						Input:  input,
+						Reason: fmt.Sprintf("response header %q doesn't match schema", headerName),
+						Err:    err,
+					}
+				}
 			}
 		}
 		return nil
